@@ -391,6 +391,9 @@ class Scheduler(object):
     if d <= 0:
       self.yield_point(('sleep', 0), me)
       return
+    # a scheduling point right before going to sleep (sleeping has no condition to re-check, so nothing can be lost):
+    # plans can preempt the thread or inject an abort between two sleeps of a body
+    self.yield_point(('sleep', d), me)
     self.block(me, self.now + d, ('sleep', d))
     self._deliver(me)
 
